@@ -61,6 +61,7 @@ class Sched:
         self.main = threading.Semaphore(0)
         self.free = False
         self.trace = []
+        self.tsteps = []            # scheduler step count at each visible action
         self.log = []               # handler log: [t, k] in invocation order
         self.nsteps = 0
         self.gcount = 0
@@ -89,6 +90,7 @@ class Sched:
         if c is not None and not self.free:
             c.vis += 1
             self.trace.append([c.idx, lab])
+            self.tsteps.append(self.nsteps)
 
     def release_all(self):
         self.free = True
@@ -582,7 +584,7 @@ def run_case(case):
             except OSError:
                 pass
     obs = {'verdict': verdict, 'log': s.log, 'trace': s.trace, 'steps': s.nsteps,
-           'errors': list(s.errors), 'teardown': teardown,
+           'errors': list(s.errors), 'teardown': teardown, 'tsteps': s.tsteps,
            'returned': [s.byidx[t + 1].fire_returned for t in range(len(nev))],
            'missing_anchors': list(MISSING)}
     return obs
@@ -751,28 +753,54 @@ class C03(Prop):
         self._obs = {}
 
     # ---- cases
+    def measure(self, mode, timer):
+        """sizes of the sweep ranges for one configuration, from the undisturbed run: visible loop actions up to the
+        first park (n1) and while processing the first wake-up (n2); position of the dispatcher call for
+        generate_events in that second phase (jg) and the number of scheduler steps from there to the park (rg);
+        scheduler steps of the whole phases (r1, r2)"""
+        o = run_case({'mode': mode, 'timer': timer, 'threads': [2], 'tmo': 0, 'sched': {
+            'kind': 'seg', 'order': [0, 1], 'segs': [[0, -1], [1, -2], [0, -1], [1, -1], [0, -1]]}})
+        tr, ts = o['trace'], o['tsteps']
+        k1 = next(i for i, x in enumerate(tr) if x[0] == 1)                       # first fire starts
+        k2 = next(i for i in range(k1, len(tr)) if tr[i][0] == 0)                  # loop woken
+        k3 = next(i for i in range(k2, len(tr)) if tr[i][0] == 1)                  # second fire starts
+        kg = next(i for i in range(k2, k3) if tr[i][1][0] == 'Call' and tr[i][1][1][0] == 'G')
+        return {'n1': k1, 'n2': k3 - k2, 'jg': kg - k2 + 1, 'rg': ts[k3] - ts[kg], 'r1': ts[k1],
+                'r2': ts[k3] - ts[k2] + 1}
+
     def generate(self, rng, n, tier, with_sweep=True):
         cases = []
-        cfgs = CONFIGS[:6] if with_sweep else []
-        # systematic coarse sweeps (one whole fire() placed after the loop's j-th visible action)
+        cfgs = [(m, t) for m in ('fallback', 'select', 'poll', 'epoll') for t in (False, True)] if with_sweep else []
+        # systematic sweeps: one whole fire() placed at every position of the loop thread, for every waiter,
+        # without and WITH the timer-like handler (time_left > 0: the timed wait / timed select branches)
         sweep = []
+        sizes = {}
+
+        def sw(mode, timer, segs):
+            sweep.append({'mode': mode, 'timer': timer, 'threads': [2], 'tmo': 0,
+                          'sched': {'kind': 'seg', 'order': [0, 1], 'segs': segs}})
         for mode, timer in cfgs:
-            for j in range(0, 52):        # start-up, first tick, first park
-                sweep.append({'mode': mode, 'timer': timer, 'threads': [2], 'tmo': 0, 'sched': {
-                    'kind': 'seg', 'order': [0, 1], 'segs': [[0, j, 'v'], [1, -2], [0, -1], [1, -1], [0, -1]]}})
-            for j in range(0, 64):        # the loop is processing the first wake-up
-                sweep.append({'mode': mode, 'timer': timer, 'threads': [2], 'tmo': 0, 'sched': {
-                    'kind': 'seg', 'order': [0, 1],
-                    'segs': [[0, -1], [1, -2], [0, j, 'v'], [1, -2], [0, -1], [1, -1], [0, -1]]}})
-        if tier == 'thorough':
-            for mode, timer in cfgs:      # a fire() split in two at each of its visible actions
-                for i in range(1, 14):
-                    for j in range(0, 64, 1):
-                        sweep.append({'mode': mode, 'timer': timer, 'threads': [2], 'tmo': 0, 'sched': {
-                            'kind': 'seg', 'order': [0, 1],
-                            'segs': [[0, -1], [1, -2], [0, j, 'v'], [1, i, 'v'], [0, -1], [1, -1], [0, -1]]}})
+            z = self.measure(mode, timer)
+            sizes['%s%s' % (mode, '+timer' if timer else '')] = z
+            for j in range(0, z['n1'] + 1):        # after the j-th visible action of start-up / first tick / first park
+                sw(mode, timer, [[0, j, 'v'], [1, -2], [0, -1], [1, -1], [0, -1]])
+            for j in range(0, z['n2'] + 1):        # ... of the tick that processes the first wake-up
+                sw(mode, timer, [[0, -1], [1, -2], [0, j, 'v'], [1, -2], [0, -1], [1, -1], [0, -1]])
+            for r in range(0, z['rg'] + 2):        # every LINE of the generate_events handling of that tick (warm caches)
+                sw(mode, timer, [[0, -1], [1, -2], [0, z['jg'], 'v'], [0, r], [1, -2], [0, -1], [1, -1], [0, -1]])
+            if tier == 'thorough':
+                for r in range(0, z['r1'] + 2):    # every line of start-up and first tick
+                    sw(mode, timer, [[0, r], [1, -2], [0, -1], [1, -1], [0, -1]])
+                for r in range(0, z['r2'] + 2):    # every line of the second tick
+                    sw(mode, timer, [[0, -1], [1, -2], [0, r], [1, -2], [0, -1], [1, -1], [0, -1]])
+                for i in range(1, 14):             # a fire() cut in two at each of its visible actions
+                    for j in range(0, z['n2'] + 1):
+                        sw(mode, timer, [[0, -1], [1, -2], [0, j, 'v'], [1, i, 'v'], [0, -1], [1, -1], [0, -1]])
+        if with_sweep:
+            self.stats['sweep_sizes'] = sizes
+            self.stats['sweep_cases'] = len(sweep)
         cases += sweep
-        for i in range(max(0, n - len(sweep)) if tier == 'quick' else n):
+        for i in range(max(150, n - len(sweep)) if tier == 'quick' else n):
             mode, timer = CONFIGS[i % len(CONFIGS)]
             threads = list(rng.choice(THREADS if tier == 'thorough' else THREADS[:5]))
             nt = len(threads) + 1
@@ -783,10 +811,10 @@ class C03(Prop):
                 b = rng.choice([[-2], [rng.randint(1, 13), 'v'], [rng.randint(1, 30)]])
                 c = rng.choice([[-1], [-1], [rng.randint(0, 20), 'v']])
                 if rng.random() < 0.7:
-                    segs = [[0, -1], [1, -2], [0, rng.randint(0, 64), 'v'], [second] + b, [0] + c, [second, -1],
+                    segs = [[0, -1], [1, -2], [0, rng.randint(0, 33), 'v'], [second] + b, [0] + c, [second, -1],
                             [0, -1]]
                 else:
-                    segs = [[0, rng.randint(0, 52), 'v'], [1] + b, [0] + c, [1, -1], [0, -1]]
+                    segs = [[0, rng.randint(0, 28), 'v'], [1] + b, [0] + c, [1, -1], [0, -1]]
                 sch = {'kind': 'seg', 'segs': segs, 'order': list(range(nt))}
             elif r < 0.7:
                 order = list(range(nt))
